@@ -46,7 +46,8 @@ RULE = ("col seam: random categorical dimensions (1-6 elements, 0-3 subtotals) x
         "id or a NaN); distinct = distinct (seam, collation, keyword, order, direction) key")
 ASSUMPTIONS = [
     "element ids of a dimension are pairwise distinct; one sort value per valid element",
-    "ties are unconstrained by the property (N6): public values within rel 1e-9 are merged before judging monotonicity",
+    "ties are unconstrained by the property (N6): public values that differ by float noise only (rel 1e-13) are merged "
+    "before judging monotonicity; distinct keys however close (k vs k+2^-30) or tiny (x 2^-40) are judged",
     "keywords the library rejects with NotImplementedError (median, pairwise_t_test, smoothed_*) and order dicts "
     "lacking 'measure'/'element_id' (KeyError) are outside the property's fallback clause and not generated",
     "population sort is run with population > 0 and no filter (population fraction 1) and without difference subtotals",
@@ -85,6 +86,28 @@ NEEDS = {"mean": "mean", "means": "mean", "sum": "sum", "stddev": "stddev", "col
          "row_share_sum": "sum", "total_share_sum": "sum", "share_sum": "sum"}
 
 VAL_POOL = [0, 1, 1, 2, 2, 3, -1, "1/2", "3/2", "nan", "nan", "inf", "-inf", 10]
+EPS30 = Fraction(1, 2 ** 30)           # distinct keys closer than 1e-8, far above float noise, exact in binary64
+TINY40 = Fraction(1, 2 ** 40)          # everything on a tiny exact scale
+
+
+def _regime(rng, vals):
+    """re-scale / perturb the finite values of a value vector (exactly representable results)."""
+    r = rng.random()
+    if r < 0.70:
+        return vals
+    out = []
+    for k, v in enumerate(vals):
+        if v in ("nan", "inf", "-inf"):
+            out.append(v)
+        elif r < 0.82:
+            out.append(gen.frac_str(Fraction(v) * TINY40))                     # tiny scale
+        elif r < 0.94:
+            out.append(gen.frac_str(Fraction(v) + rng.choice([-2, -1, 0, 1, 2, 3]) * EPS30))   # close pairs
+        else:
+            out.append(gen.frac_str((Fraction(v) + rng.choice([0, 1, 2]) * EPS30) * TINY40 * 1024))
+    return out
+
+
 LABEL_POOL = ["a", "b", "B", "", "ab", "abc", "b", "Z", "nan"]
 EX_IDS = [2, 5, 3, 7]
 STALE = 9
@@ -117,8 +140,11 @@ def _exhaustive(ctx):
     rng = ctx.rng
     full = not ctx.quick
     cases = []
-    patterns = {1: [[1]], 2: [[1, 2], [2, 2], ["nan", 1]], 3: [[1, 3, 2], [2, 2, 1], [1, "nan", 1]],
-                4: [[1, 3, 2, 4], [2, "nan", 2, 1]]}
+    e1, e2 = gen.frac_str(1 + EPS30), gen.frac_str(1 + 2 * EPS30)
+    t1, t2, t3 = gen.frac_str(TINY40), gen.frac_str(2 * TINY40), gen.frac_str(3 * TINY40)
+    patterns = {1: [[1]], 2: [[1, 2], [2, 2], ["nan", 1], [e1, 1], [1, e1], [t2, t1]],
+                3: [[1, 3, 2], [2, 2, 1], [1, "nan", 1], [e1, e2, 1], [t1, t3, t2]],
+                4: [[1, 3, 2, 4], [2, "nan", 2, 1], [e1, 1, e2, 1], [t2, t1, t3, t1]]}
     for n in (1, 2, 3, 4):
         ids = EX_IDS[:n]
         alpha = ids + [STALE]
@@ -158,8 +184,8 @@ def _gen_col(rng):
     kind = rng.choice(["num", "num", "num", "str"])
     nv = len(ids)
     if kind == "num":
-        vals = [rng.choice(VAL_POOL) for _ in range(nv)]
-        svals = [rng.choice(VAL_POOL) for _ in range(m)]
+        vals = _regime(rng, [rng.choice(VAL_POOL) for _ in range(nv)])
+        svals = _regime(rng, [rng.choice(VAL_POOL) for _ in range(m)])
     else:
         vals = [rng.choice(LABEL_POOL) for _ in range(nv)]
         svals = [rng.choice(LABEL_POOL) for _ in range(m)]
@@ -234,7 +260,7 @@ def _gen_api(rng):
         vars_ = [gen.gen_var(rng, k, "v%d" % i, n=rng.randint(1, 5), numeric="all" if rng.random() < 0.5 else "some")
                  for i, k in enumerate(kinds)]
     ads = _adims(vars_)
-    survey = gen.survey_to_json(gen.gen_survey(rng, vars_, n_resp=rng.choice([0, 4, 12, 30, 30]), weighted=rng.random() < 0.5))
+    survey = gen.survey_to_json(gen.gen_survey(rng, vars_, n_resp=rng.choice([0, 4, 12, 30, 30]), weighted=rng.random() < 0.6, tiny=True))
     axis = 0 if nd == 1 else rng.choice([0, 0, 1])
     extra = [m for m in ("mean", "sum", "stddev") if rng.random() < 0.3]
     sv, ov = ads[axis], (ads[1 - axis] if nd == 2 else None)
@@ -330,14 +356,18 @@ def _extra_measures(case, vars_):
     for s in gen.raw_shape(vars_):
         size *= s
     out = {}
+    close = rng.random() < 0.35
     for name in case["extra"]:
         data = []
         for _ in range(size):
             if rng.random() < 0.15:
                 data.append({"?": -8})
             else:
-                data.append(rng.choice([0, 1, 1.5, 2, 2, 3.25, -1, 10, 0.5]) if name != "stddev"
-                            else rng.choice([0, 0.5, 1, 1, 2.5, 4]))
+                base = (rng.choice([0, 1, 1.5, 2, 2, 3.25, -1, 10, 0.5]) if name != "stddev"
+                        else rng.choice([0, 0.5, 1, 1, 2.5, 4]))
+                if close:
+                    base = base + rng.choice([0, 1, 2, 3]) * 2.0 ** -30      # exact in binary64
+                data.append(base)
         out[name] = data
     return out
 
@@ -360,12 +390,15 @@ def _build(case, plain):
 
 
 def _cluster(values):
-    """merge near-equal finite values (rel 1e-9) so that ties are never judged."""
+    """merge values that differ by float noise only (rel 1e-13 of the pair, or of the largest magnitude in
+    the vector for cancellation residue near 0), so that such ties are never judged; keys that are
+    distinct beyond noise - however close or tiny - stay distinct."""
     fin = sorted({v for v in values if isinstance(v, float) and math.isfinite(v)})
+    top = max([abs(v) for v in fin] + [0.0])
     rep = {}
     cur = None
     for v in fin:
-        if cur is not None and abs(v - cur) <= max(1e-12, 1e-9 * max(abs(v), abs(cur))):
+        if cur is not None and abs(v - cur) <= max(1e-13 * top, 1e-13 * max(abs(v), abs(cur))):
             rep[v] = cur
         else:
             cur = v
